@@ -9,4 +9,5 @@ import Jsonapi.Props.C14
 import Jsonapi.Props.C15
 import Jsonapi.Props.C16
 import Jsonapi.Props.C17
+import Jsonapi.Props.C19
 import Jsonapi.Props.C20
